@@ -13,7 +13,7 @@ def plan(tier, seed):
         kernels = lemire_rows("f64", tier, seed, "lemire_nopanic", 4) + lemire_rows("f32", tier, seed, "lemire_nopanic", 2)
     else:
         ints += [H("c04::k1_%s_6" % t, "integers", "arbitrary bytes len<=6") for t in INT_TYPES]
-        fl += [H("pf::p1_%s_%s_%d" % (f, m, n), "floats", "arbitrary bytes len<=%d" % n) for f in ("f32", "f64") for m in ("partial", "complete") for n in (5, 6)]
+        fl += [H("pf::p1_%s_%s_%d" % (f, m, n), "floats", "arbitrary bytes len<=%d" % n) for f in ("f32", "f64") for m in ("partial", "complete") for n in (5,)]
         groups.append(KGroup("D", ints, timeout=7200, jobs=14, mem_gb=12, label="integers default"))
         groups.append(KGroup("D", fl, timeout=7200, jobs=12, mem_gb=12, stubbing=True, label="floats default (stubbed numerics)"))
         groups.append(KGroup("C", ints[:10] , timeout=7200, jobs=14, mem_gb=12, label="integers compact"))
